@@ -141,19 +141,6 @@ theorem not_contains {v : Value} {k : Kind} (hm : mem v k = true) :
 
 /-! ### functions that cannot fail on well-typed arguments -/
 
-theorem ciLoop_ne_err (cm : Str.CaseMap) : ∀ (n : Nat) (s b : List Nat), Str.ciLoop cm n s b ≠ .err
-  | 0, _, _ => by simp [Str.ciLoop]
-  | n + 1, s, b => by
-    unfold Str.ciLoop
-    repeat' split
-    all_goals first | exact ciLoop_ne_err cm n _ _ | simp
-
-theorem startsWithBytes_ne_err (cm : Str.CaseMap) (cs : Bool) (b s : List Nat) :
-    Str.startsWithBytes cm cs b s ≠ .err := by
-  unfold Str.startsWithBytes
-  repeat' split
-  all_goals first | exact ciLoop_ne_err cm _ _ _ | simp
-
 theorem optBool_some {d : Bool} {o : Option Value}
     (h : ∀ v, o = some v → hasBit mBoolean (kindBit v) = true) : ∃ b, Coll.optBool d o = some b := by
   cases o with
